@@ -17,7 +17,7 @@ HistBound == Len(hist) <= SimDepth
 \* replays on the two real stores).  Always TRUE: the run enumerates, it does not stop.
 EmitWitnesses ==
     \A d \in Deviation :
-        LET bad == {r \in Reads : Served(r) /\ ReadA(St, r, {d}) # ReadB(St, r)} IN
+        LET bad == {r \in ServedReads : ReadA(St, r, {d}) # ReadB(St, r)} IN
         \/ bad = {}
         \/ LET r == CHOOSE x \in bad : TRUE IN
            PrintT(ToJson(Append(hist, [op |-> "Read", dev |-> d, read |-> r])))
